@@ -33,11 +33,16 @@
 //    using Domains = std::map<std::string, std::vector<int32_t>>   (key "*" = default for unlisted bases)
 //    subsets_card_lex(n, cap, &complete)   subsets of {0..n-1} as index lists, by size then lexicographic; if 2^n > cap
 //                                          only the first cap/2 and the complements of those (the last cap/2) are produced
+//                                          (n > 64: the first cap only)
 //    enumerate(type, domains, cap, &complete)  all values in canonical (cmp) order; capped as above per set level
 //
 //  Bridge to the library (the only part that includes ccl headers)
 //    to_typification(Type) / from_typification(Typification)
 //    to_sd(Value)                 builds the enumerated library value (Factory::Val / Tuple / Set)
+//    lazy_sd(Value, altParts)     the value as Factory::Boolean(base) / Factory::Decartian(factors) when it IS a full power set /
+//                                 product of its projections (nullopt otherwise); altParts: bases / factors built by alt_sd
+//    alt_sd(Value)                the same value built "the other way": lazy where possible (recursively), otherwise elements
+//                                 inserted in descending order with a duplicate — equal to to_sd(v) by the property under test
 //    from_sd(StructuredData)      converts by ITERATING the library value (works for enumerated, power-set, product)
 //    iterate(SDSet)               raw iteration sequence converted element by element (not sorted, duplicates kept)
 //    compatible_sd(sd, typif)     deep compatibility of a library value with a library typification (by iteration;
@@ -51,6 +56,7 @@
 #include <cstdint>
 #include <functional>
 #include <map>
+#include <optional>
 #include <string>
 #include <vector>
 
@@ -212,11 +218,13 @@ inline std::vector<Type> enumerate_types(int maxNodes, int maxArity, const std::
 using Domains = std::map<std::string, std::vector<int32_t>>;
 
 // subsets of {0..n-1} as sorted index lists, ordered by size then lexicographically.
-// If 2^n > cap: the first cap/2 of that order, then the complements of those in reverse (= the last cap/2); *complete = false.
+// If 2^n > cap: *complete = false and, for n <= 64, the first cap/2 of that order followed by the complements of those in reverse
+// (= the last cap/2); for n > 64 just the first cap (the complements would be huge sets).
 inline std::vector<std::vector<int>> subsets_card_lex(int n, size_t cap, bool* complete = nullptr) {
   const bool all = n < 62 && (uint64_t{ 1 } << n) <= cap;
   if (complete != nullptr && !all) *complete = false;
-  const size_t want = all ? (size_t{ 1 } << n) : cap / 2;
+  const bool tail = !all && n <= 64;
+  const size_t want = all ? (size_t{ 1 } << n) : tail ? cap / 2 : cap;
   std::vector<std::vector<int>> out;
   for (int k = 0; k <= n && out.size() < want; ++k) {
     std::vector<int> c(static_cast<size_t>(k)); for (int i = 0; i < k; ++i) c[static_cast<size_t>(i)] = i;
@@ -230,7 +238,7 @@ inline std::vector<std::vector<int>> subsets_card_lex(int n, size_t cap, bool* c
       for (int q = p + 1; q < k; ++q) c[static_cast<size_t>(q)] = c[static_cast<size_t>(q - 1)] + 1;
     }
   }
-  if (!all) {
+  if (tail) {
     const size_t first = out.size();
     for (size_t i = first; i-- > 0;) {
       std::vector<int> comp; size_t p = 0;
@@ -298,6 +306,35 @@ inline ccl::object::StructuredData to_sd(const Value& v) {
   std::vector<ccl::object::StructuredData> parts; parts.reserve(v.items.size());
   for (const auto& x : v.items) parts.push_back(to_sd(x));
   return v.isTuple() ? Factory::Tuple(parts) : Factory::Set(parts);
+}
+
+inline ccl::object::StructuredData alt_sd(const Value& v);
+inline std::optional<ccl::object::StructuredData> lazy_sd(const Value& v, bool altParts) {
+  using ccl::object::Factory; using ccl::object::StructuredData;
+  if (!v.isSet() || v.items.empty()) return std::nullopt;
+  bool allSets = true, allTuples = true;
+  for (const auto& e : v.items) { allSets = allSets && e.isSet(); allTuples = allTuples && e.isTuple() && e.items.size() == v.items[0].items.size(); }
+  if (allSets) {
+    const Value U = reduce(v);
+    if (U.items.size() <= 20 && v.items.size() == (size_t{ 1 } << U.items.size())) return Factory::Boolean(altParts ? alt_sd(U) : to_sd(U));
+    return std::nullopt;
+  }
+  if (allTuples) {
+    const size_t m = v.items[0].items.size(); size_t prod = 1; std::vector<StructuredData> parts;
+    for (size_t i = 0; i < m; ++i) { const Value f = projection(v, { static_cast<int>(i + 1) }); prod *= f.items.size(); parts.push_back(altParts ? alt_sd(f) : to_sd(f)); }
+    if (prod == v.items.size()) return Factory::Decartian(parts);
+  }
+  return std::nullopt;
+}
+inline ccl::object::StructuredData alt_sd(const Value& v) {
+  using ccl::object::Factory; using ccl::object::StructuredData;
+  if (v.isElem()) return Factory::Val(v.id);
+  if (v.isTuple()) { std::vector<StructuredData> c; for (const auto& x : v.items) c.push_back(alt_sd(x)); return Factory::Tuple(c); }
+  if (auto l = lazy_sd(v, true); l.has_value()) return *l;
+  std::vector<StructuredData> el;
+  for (size_t i = v.items.size(); i-- > 0;) el.push_back(alt_sd(v.items[i]));
+  if (!el.empty()) el.push_back(el.front());
+  return Factory::Set(el);
 }
 
 inline Value from_sd(const ccl::object::StructuredData& d);
